@@ -15,9 +15,9 @@ use std::rc::Rc;
 fn c03_families(format: Format, tier: Tier) -> Vec<Family> {
     let (maxlen, max_lines) = match (format, tier) {
         (Format::Fasta, Tier::Quick) => (7, 4),
-        (Format::Fasta, Tier::Thorough) => (9, 6),
+        (Format::Fasta, Tier::Thorough) => (8, 5),
         (Format::Fastq, Tier::Quick) => (6, 4),
-        (Format::Fastq, Tier::Thorough) => (8, 6),
+        (Format::Fastq, Tier::Thorough) => (7, 5),
     };
     let recs = rec_files(
         format,
